@@ -1,6 +1,236 @@
-"""Verus back end (filled in by verus units)."""
-from common import Undecided
+"""Verus back end: contracts on functions sliced VERBATIM out of the scratch copy of /repo on every run.
+
+Unit `bvh_builder`: bemodel/src/energy/raytracing/bvh.rs
+  extracted items : enum Side, enum NodeType, type NodeId, struct TreeElement<T>, fn generate_node_list
+  added           : everything in /verif/verus/bvh_vspec.py and /verif/verus/bvh_ghost.rs.in (ghost code only)
+  dropped         : doc comments outside the function, #[derive(Debug)] on the two enums, everything else in bvh.rs
+A verbatim check removes every added line again and compares with the repository text.
+"""
+import importlib.util
+import json
+import os
+import re
+import time
+
+from common import VERIF, Undecided, run
+
+MARK = " //@v"
+
+
+def _load_vspec():
+    p = os.path.join(VERIF, "verus", "bvh_vspec.py")
+    spec = importlib.util.spec_from_file_location("bvh_vspec", p)
+    m = importlib.util.module_from_spec(spec)
+    spec.loader.exec_module(m)
+    return m
+
+
+def _match_braces(text, start):
+    """index just past the brace that closes the first '{' at or after `start` (string/char/comment aware enough
+    for this file: skips // comments and string literals)."""
+    i = text.index("{", start)
+    depth = 0
+    n = len(text)
+    while i < n:
+        ch = text[i]
+        if text.startswith("//", i):
+            i = text.index("\n", i)
+            continue
+        if ch == '"':
+            i += 1
+            while text[i] != '"':
+                i += 2 if text[i] == "\\" else 1
+        elif ch == "{":
+            depth += 1
+        elif ch == "}":
+            depth -= 1
+            if depth == 0:
+                return i + 1
+        i += 1
+    raise Undecided("verus extraction: unbalanced braces")
+
+
+def _slice_item(text, rx, what, braces=True):
+    ms = list(re.finditer(rx, text, re.M))
+    if len(ms) != 1:
+        raise Undecided(f"lost anchor: {what}: /{rx}/ matched {len(ms)} times in bvh.rs")
+    s = ms[0].start()
+    if braces:
+        e = _match_braces(text, s)
+    else:
+        e = text.index(";", s) + 1
+    return text[s:e]
+
+
+def _norm(t):
+    return re.sub(r"\s+", " ", t).strip()
+
+
+def extract_bvh(scratch):
+    vs = _load_vspec()
+    src = open(scratch.file("bemodel/src/energy/raytracing/bvh.rs")).read()
+    side = _slice_item(src, r"^enum Side \{", "enum Side")
+    ntype = _slice_item(src, r"^enum NodeType \{", "enum NodeType")
+    nodeid = _slice_item(src, r"^type NodeId = ", "type NodeId", braces=False)
+    telem = _slice_item(src, r"^struct TreeElement<T>\(", "struct TreeElement", braces=False)
+    fn = _slice_item(src, r"^    fn generate_node_list\(elements: Vec<T>, max_num_elements: usize\) -> Vec<TreeElement<T>> \{",
+                     "fn generate_node_list")
+    lines = fn.split("\n")
+    labels = {}   # generated line text -> label (resolved to line numbers later)
+    out = []
+    # signature + contract
+    sig = lines[0]
+    assert sig.rstrip().endswith("{")
+    out.append(sig.rstrip()[:-1].rstrip().replace("-> Vec<TreeElement<T>>", "-> (node_list: Vec<TreeElement<T>>)") + MARK + "[sig]")
+    out.append("        requires" + MARK)
+    for lab, cl in vs.CONTRACT_REQUIRES:
+        out.append(f"            {cl}," + MARK + f"[{lab}]")
+    out.append("        ensures" + MARK)
+    for lab, cl in vs.CONTRACT_ENSURES:
+        out.append(f"            {cl}," + MARK + f"[{lab}]")
+    out.append("    {" + MARK + "[open]")
+    body = lines[1:]
+    # resolve insert anchors against the ORIGINAL body lines
+    before, after = {}, {}
+    for rx, occ, where, text in vs.INSERTS:
+        hits = [i for i, l in enumerate(body) if re.search(rx, l)]
+        if not hits or (occ > 0 and len(hits) < occ):
+            raise Undecided(f"lost anchor: verus insert /{rx}/ (occurrence {occ}) not found in generate_node_list")
+        if occ > 0 and len(hits) != max(occ, 1) and occ == 1 and len(hits) > 1:
+            raise Undecided(f"lost anchor: verus insert /{rx}/ matched {len(hits)} lines, expected exactly 1")
+        i = hits[occ - 1] if occ > 0 else hits[occ]
+        (before if where == "before" else after).setdefault(i, []).extend(text.split("\n"))
+    wh = [i for i, l in enumerate(body) if re.search(vs.WHILE_ANCHOR, l)]
+    if len(wh) != 1:
+        raise Undecided(f"lost anchor: while-loop header matched {len(wh)} times")
+    for i, l in enumerate(body):
+        ind = re.match(r"\s*", l).group(0)
+        for t in before.get(i, []):
+            out.append(ind + t + MARK)
+        if i == wh[0]:
+            out.append(l.rstrip()[:-1].rstrip() + MARK + "[while]")
+            out.append(ind + "    invariant" + MARK)
+            for lab, cl in vs.LOOP_INVARIANTS:
+                out.append(ind + f"        {cl}," + MARK + f"[{lab}]")
+            out.append(ind + f"    decreases {vs.LOOP_DECREASES[1]}," + MARK + f"[{vs.LOOP_DECREASES[0]}]")
+            out.append(ind + "{" + MARK + "[open]")
+        else:
+            out.append(l)
+        for t in after.get(i, []):
+            out.append(ind + t + MARK)
+    gen_fn = "\n".join(out)
+
+    # ---- verbatim check: drop every added line, undo the two split headers, compare with the repo text ----
+    kept = []
+    for l in gen_fn.split("\n"):
+        if MARK in l:
+            tag = l[l.index(MARK) + len(MARK):]
+            if tag.startswith("[sig]"):
+                kept.append(l[:l.index(MARK)].replace("-> (node_list: Vec<TreeElement<T>>)", "-> Vec<TreeElement<T>>") + " {")
+            elif tag.startswith("[while]"):
+                kept.append(l[:l.index(MARK)] + " {")
+            continue
+        kept.append(l)
+    if _norm("\n".join(kept)) != _norm(fn):
+        raise Undecided("verus extraction: verbatim check failed (generated text minus added lines != repository text)")
+
+    ghost = open(os.path.join(VERIF, "verus", "bvh_ghost.rs.in")).read()
+
+    def strip_derive(item):
+        return item
+
+    text = (vs.HEADER + "\n" + side + "\n\n" + ntype + "\n\n" + nodeid + "\n" + telem + "\n\n" + ghost
+            + "\nimpl<T: Bounded> BVH<T> {\n" + vs.EXTERNAL + "\n" + gen_fn + "\n}\n\n} // verus!\nfn main() {}\n")
+    return text, fn
+
+
+def _label_for(gen_lines, cited):
+    for ln in cited:
+        if 1 <= ln <= len(gen_lines):
+            l = gen_lines[ln - 1]
+            m = re.search(re.escape(MARK) + r"\[(C\d\d[^\]]*)\]", l)
+            if m:
+                return m.group(1)
+    return None
+
+
+def parse_errors(out, gen_lines, fn_first, fn_last):
+    """Split verus stderr into error blocks -> [{msg, lines:[..], clause}]"""
+    blocks = re.split(r"\n(?=error)", "\n" + out)
+    errs = []
+    for b in blocks:
+        b = b.strip()
+        if not b.startswith("error") or b.startswith("error: aborting"):
+            continue
+        msg = b.split("\n")[0][len("error"):].lstrip(": ").strip()
+        cited = [int(x) for x in re.findall(r"^\s*(\d+) \|", b, re.M)]
+        prim = re.search(r"-->\s*[^:\n]+:(\d+):", b)
+        if prim:
+            cited = [int(prim.group(1))] + cited
+        errs.append({"msg": msg, "lines": cited, "text": b[:1200]})
+    return errs
 
 
 def run_unit(scratch, ob, tier, log):
-    raise Undecided("verus back end not built yet")
+    if ob["name"] != "bvh_builder":
+        raise Undecided("unknown verus unit " + ob["name"])
+    text, fn = extract_bvh(scratch)
+    path = os.path.join(scratch.base, "bvh_builder.rs")
+    with open(path, "w") as f:
+        f.write(text)
+    gen_lines = text.split("\n")
+    rlimit = "60" if tier == "thorough" else "30"
+    cmd = ["verus", path, "--multiple-errors", "20", "--rlimit", rlimit, "--time"]
+    log("verus: " + " ".join(cmd))
+    t0 = time.time()
+    rc, out, secs, to = run(cmd, cwd=scratch.base, timeout=600)
+    with open(os.path.join(scratch.base, "bvh_builder.verus.log"), "w") as f:
+        f.write(out)
+    m = re.search(r"verification results:: (\d+) verified, (\d+) errors", out)
+    if to or not m:
+        if "error[E" in out or "error: expected" in out or "error: cannot find" in out:
+            raise Undecided("verus rejected the extracted text (syntax / unsupported construct):\n" + out[-1500:])
+        raise Undecided("verus produced no result (timeout=%s)\n%s" % (to, out[-800:]))
+    verified, nerr = int(m.group(1)), int(m.group(2))
+    tm = re.search(r"total-time:\s*(\d+)", out)
+    smt = re.search(r"smt-run:\s*(\d+)", out) or re.search(r"total smt.*?(\d+)", out)
+    errs = parse_errors(out, gen_lines, 0, 0)
+    vs = _load_vspec()
+    all_labels = [lab for lab, _ in vs.CONTRACT_ENSURES] + [vs.LOOP_DECREASES[0], "C13.builder.arith_safe", "C13.builder.unwrap_safe"] \
+        + sorted({lab for lab, _ in vs.LOOP_INVARIANTS if lab != "C13.builder.inv"})
+    failed = {}
+    undecided = []
+    for e in errs:
+        msg = e["msg"]
+        if "rlimit" in msg.lower() or "resource limit" in msg.lower() or "timed out" in msg.lower():
+            undecided.append(msg)
+            continue
+        lab = _label_for(gen_lines, e["lines"][1:] + e["lines"][:1])
+        if "arithmetic underflow/overflow" in msg or "possible division by zero" in msg:
+            lab = "C13.builder.arith_safe"
+        elif "decreases not satisfied" in msg or "must have a decreases" in msg:
+            lab = "C13.builder.terminates"
+        elif lab is None and "precondition not satisfied" in msg and re.search(r"unwrap\(\)", e["text"]):
+            lab = "C13.builder.unwrap_safe"
+        elif lab is None:
+            lab = "C13.builder.proof"
+        src_lines = [gen_lines[l - 1].split(MARK)[0].strip() for l in e["lines"][:3] if 1 <= l <= len(gen_lines)]
+        failed.setdefault(lab, []).append(f"{msg}: {' <- '.join(src_lines)}")
+    results = []
+    for lab in all_labels + (["C13.builder.proof"] if "C13.builder.proof" in failed else []):
+        rec = {"obligation": ob["name"], "clause": lab, "backend": "verus", "kind": "deductive", "bound": None,
+               "function": "BVH::generate_node_list (verbatim extraction; partition step assumed by contract P)",
+               "secs": round(secs, 2), "solver_s": round(secs, 2), "checks": verified}
+        if lab in failed:
+            rec["status"] = "failed"
+            rec["failures"] = [{"clause": lab, "detail": "; ".join(failed[lab])[:600]}]
+        elif undecided:
+            rec["status"] = "undecided"
+            rec["detail"] = "; ".join(undecided)[:300]
+        else:
+            rec["status"] = "success"
+        results.append(rec)
+    if nerr > 0 and not failed and not undecided:
+        raise Undecided("verus reported errors that could not be attributed:\n" + out[-1500:])
+    log(f"verus bvh_builder: {verified} functions verified, {nerr} errors, {secs:.1f}s; failed obligations: {sorted(failed)}")
+    return results
